@@ -20,6 +20,27 @@ NONDICT = ["list", "tuple", "str", "int", "set", "gen"]                         
 MUTS = ["del", "add", "relabel", "clear"]
 SCHEMES = ["dot", "colon", "slash", "under", "arrow", "space", "dash", "int", "tuple", "case"]
 
+# raw payloads of unusual but legal Python types; the model sees the opaque code 1000 + index
+KINDS = ["none", "false", "true", "emptystr", "emptylist", "dict", "nan", "eqraises", "boolraises", "list", "tvlike", "tuple"]
+
+
+class EqRaises:
+    def __eq__(self, other):
+        raise RuntimeError("== on a payload")
+    __hash__ = None
+
+
+class BoolRaises:
+    def __bool__(self):
+        raise RuntimeError("bool() of a payload")
+
+
+class TvLike:
+    """looks like a TypedValue (same attributes), is not one: a raw payload"""
+    def __init__(self, dt, il):
+        self.data_type, self.integrity, self.value = dt, il, 5
+
+
 EXC = ["RuntimeError", "TypeError", "ValueError", "KeyError", "AttributeError", "WiringError", "ZeroDivisionError"]
 
 
@@ -39,7 +60,7 @@ class C16(Prop):
     title = "Typed wiring: no type/integrity-violating flow; modules run once, in order"
     extractors = ["E6"]
     fixed_prefix = 0
-    quick_budget = 2200
+    quick_budget = 1800
     thorough_budget = 60000
     all_branches = (["mod:ok", "mod:moduleExists", "wire:ok", "wire:unknownOutputPort", "wire:unknownInputPort",
                      "wire:typeMismatch", "wire:integrityViolation", "rawwire", "handler:ret", "handler:retnone",
@@ -167,8 +188,12 @@ class C16(Prop):
             for p, (dt, il) in outs[m]:
                 x = rng.random()
                 k = rng.randrange(100)
-                if x < 0.55:
+                if x < 0.05:
+                    ent.append(f"{p}:rawv:{rng.choice(KINDS)}")       # a payload of an unusual but legal type
+                elif x < 0.55:
                     ent.append(f"{p}:raw:{k}")
+                elif x < 0.6:
+                    ent.append(f"{p}:typedsub:{dt}:{il if rng.random() < 0.8 else rng.randrange(nI)}:{k}")
                 elif x < (0.96 if not wild else 0.85):
                     ent.append(f"{p}:typed:{dt}:{il}:{k}")
                 else:                                         # mislabelled: wrong type, lower or HIGHER integrity
@@ -201,7 +226,9 @@ class C16(Prop):
                     continue
                 x = rng.random()
                 k = rng.randrange(100)
-                if x < 0.5:
+                if x < 0.06:
+                    lines.append(f"ext {m} {p} rawv {rng.choice(KINDS)}")
+                elif x < 0.5:
                     lines.append(f"ext {m} {p} raw {k}")
                 elif x < (0.95 if not wild else 0.8):
                     lines.append(f"ext {m} {p} typed {dt} {rng.randrange(il, nI)} {k}")
@@ -504,7 +531,7 @@ class C16(Prop):
         for pre in ([], other):
             for enf in ("1", "0"):
                 for k in (1, 2, 3):
-                    if k == 3 and tier == "quick":
+                    if tier == "quick" and (k == 3 or (k == 2 and enf == "0")):
                         continue
                     for seq in itertools.product(edits, repeat=k):
                         if pre == [] and any(e == ["swapdiag"] for e in seq) and k > 1:
@@ -519,6 +546,28 @@ class C16(Prop):
                                "containers (wire removed / connected / overwritten / re-ordered, module deleted / re-declared / "
                                "replaced, executor.diagram re-assigned to a same-sized diagram, external value), execute again; "
                                "module and wire counts often unchanged", "cases": cases})
+        # M: payloads of unusual but legal types, subclass instances of TypedValue
+        cases = []
+        chain3 = ["mod 2 I 0:0:0 O C", "mod 1 I 0:0:1 O 0:0:1 C 1", "mod 0 I O 0:0:1 C 0", "wire 0 0 1 0", "wire 1 0 2 0"]
+        for kd in KINDS:
+            cases.append({"lines": chain3 + [f"handler 0 ret 0:rawv:{kd}", "handler 1 ret 0:raw:5", "handler 2 ret", "exec 1",
+                                             "exec 0", "exec d"], "note": "unusual payloads"})
+            cases.append({"lines": chain3 + ["handler 0 ret 0:raw:4", f"handler 1 ret 0:rawv:{kd}", "handler 2 mut add", "exec 1",
+                                             "exec 1"], "note": "unusual payloads"})
+            cases.append({"lines": ["mod 0 I 0:0:1 1:0:0 O 0:0:2 C", "mod 1 I 0:0:0 O C", "wire 0 0 1 0",
+                                    f"ext 0 0 rawv {kd}", "ext 0 1 raw 3", f"handler 0 reenter 0:rawv:{kd}", "exec 1", "exec 1",
+                                    "unwire 0 0 1 0", f"ext 1 0 rawv {kd}", "exec 1"], "note": "unusual payloads"})
+            cases.append({"lines": [f"cout rawv {kd} 0 1", f"cin rawv {kd} 0 2"], "note": "unusual payloads"})
+        for s_ in labs:
+            for h in labs:
+                for enf in ("1", "0"):
+                    cases.append({"lines": [f"mod 0 I O 0:{s_[0]}:{s_[1]} C 0", f"mod 1 I 0:{s_[0]}:0 O C 1", "wire 0 0 1 0",
+                                            f"handler 0 ret 0:typedsub:{h[0]}:{h[1]}:3", f"exec {enf}"],
+                                  "note": "subclass of TypedValue"})
+        spaces.append({"name": "raw payloads of 12 unusual but legal Python types (None, False, True, '', [], dict, NaN, objects "
+                               "whose == / bool() raise, list, a duck-typed look-alike of TypedValue, tuple) as handler output "
+                               "on a source and an inner module, as external input, through _coerce_*; instances of a "
+                               "subclass of TypedValue with every label against every declared label", "cases": cases})
         # G: a chain 0 -> 1 -> 2 in every dict order, every subset of the wired ports ALSO given an external value
         cases = []
         for perm in itertools.permutations([0, 1, 2]):
@@ -651,12 +700,47 @@ class C16(Prop):
     def _pt(self, dt, il):
         return self.W.PortType(self.DT[dt], self.IL[il])
 
+    def _code(self, v):
+        """the payload as the model sees it: ints as they are, the special objects by their code (never compares, never
+        calls bool())"""
+        if v is None:
+            return 1000
+        if v is False:
+            return 1001
+        if v is True:
+            return 1002
+        if type(v) is int:
+            return v
+        if type(v) is str:
+            return 1003 if len(v) == 0 else -1
+        if type(v) is list:
+            return 1004 if len(v) == 0 else 1009
+        if type(v) is dict:
+            return 1005
+        if type(v) is float:
+            return 1006
+        for cls, c in ((EqRaises, 1007), (BoolRaises, 1008), (TvLike, 1010), (tuple, 1011)):
+            if type(v) is cls:
+                return c
+        return -1
+
+    def _special(self, kind):
+        return {"none": lambda: None, "false": lambda: False, "true": lambda: True, "emptystr": lambda: "",
+                "emptylist": lambda: [], "dict": lambda: {"data_type": self.DT[0], "integrity": self.IL[0], "value": 1},
+                "nan": lambda: float("nan"), "eqraises": EqRaises, "boolraises": BoolRaises, "list": lambda: [1, 2],
+                "tvlike": lambda: TvLike(self.DT[0], self.IL[-1]),
+                "tuple": lambda: (self.DT[0], self.IL[-1], 1)}[kind]()
+
     def _tv(self, tv):
-        return (self.dti.get(tv.data_type, -1), self.ili.get(tv.integrity, -1), tv.value)
+        return (self.dti.get(tv.data_type, -1), self.ili.get(tv.integrity, -1), self._code(tv.value))
 
     def _val(self, toks):
         if toks[0] == "raw":
             return int(toks[1]), toks[2:]
+        if toks[0] == "rawv":
+            if toks[1] not in KINDS:
+                raise ValueError
+            return self._special(toks[1]), toks[2:]
         if toks[0] == "typed":
             return self.R.TypedValue(self.DT[int(toks[1])], self.IL[int(toks[2])], int(toks[3])), toks[4:]
         raise ValueError
@@ -742,6 +826,9 @@ class C16(Prop):
 
         excs = {"WiringError": W.WiringError}
 
+        class TVSub(R.TypedValue):
+            """a subclass of TypedValue: explicitly labelled like its parent"""
+
         depth = [0]                  # 1 while a re-entering handler runs its inner execute()
         inner_calls: list = []
         inner_stat: list = []        # outcome of each inner execute() of the current outer execute()
@@ -767,7 +854,7 @@ class C16(Prop):
                         raise c("boom") if msg else c()
                 if kind == "retnone":
                     return None
-                s = sum(tv.value for tv in real.values())
+                s = sum(self._code(tv.value) for tv in real.values())
                 if kind == "reenter" and depth[0] == 0:
                     depth[0] = 1
                     del inner_calls[:]
@@ -798,9 +885,11 @@ class C16(Prop):
                     if pname(p) in out:
                         continue
                     if isinstance(v, int):
-                        out[pname(p)] = (3 * s + v) % 1000
+                        out[pname(p)] = (3 * s + v) % 1000 if v < 1000 else v
+                    elif isinstance(v, str):
+                        out[pname(p)] = self._special(v)        # a fresh object of that kind at every invocation
                     else:
-                        out[pname(p)] = R.TypedValue(v.data_type, v.integrity, (3 * s + v.value) % 1000)
+                        out[pname(p)] = type(v)(v.data_type, v.integrity, (3 * s + v.value) % 1000)
                 if obj is None:
                     return out
                 import collections
@@ -886,8 +975,11 @@ class C16(Prop):
                         f = z.split(":")
                         if len(f) == 3 and f[1] == "raw":
                             entries.append((int(f[0]), int(f[2])))
-                        elif len(f) == 5 and f[1] == "typed":
-                            entries.append((int(f[0]), R.TypedValue(self.DT[int(f[2])], self.IL[int(f[3])], int(f[4]))))
+                        elif len(f) == 3 and f[1] == "rawv" and f[2] in KINDS:
+                            entries.append((int(f[0]), f[2]))
+                        elif len(f) == 5 and f[1] in ("typed", "typedsub"):
+                            cls = R.TypedValue if f[1] == "typed" else TVSub
+                            entries.append((int(f[0]), cls(self.DT[int(f[2])], self.IL[int(f[3])], int(f[4]))))
                     if kind not in ("raise", "retnone", "reenter"):
                         kind = "ret"
                     try:
@@ -988,6 +1080,8 @@ class C16(Prop):
                     depth[0] = 0
                     enforce = t[1] == "1"
                     extarg = {k: dict(v) for k, v in ext.items()} or None
+                    if nexec[0] % 4 < 2 and ext:
+                        extarg = ext      # the caller's own dict object, handed over again at later calls
                     cur.update(ext={k: dict(v) for k, v in ext.items()}, enforce=None if t[1] == "d" else enforce)
                     nexec[0] += 1
                     if t[1] == "d":
@@ -1222,9 +1316,9 @@ class C16(Prop):
                         ms_.add(int(t[1]))
                     for z in (t[7:] if t[2] == "xraise" else t[4:] if t[2] in ("retobj", "mut") else t[3:]):
                         f = z.split(":")
-                        if len(f) == 3 and f[1] == "raw":
+                        if len(f) == 3 and f[1] in ("raw", "rawv"):
                             ent.append((int(f[0]), None))
-                        elif len(f) == 5 and f[1] == "typed":
+                        elif len(f) == 5 and f[1] in ("typed", "typedsub"):
                             ent.append((int(f[0]), (int(f[2]), int(f[3]))))
                     first = {}
                     for p, v in ent:
@@ -1240,7 +1334,7 @@ class C16(Prop):
             elif op == "extmod":
                 ext[(int(t[1]), None)] = None        # an entry for the module itself (valid iff the module exists)
             elif op == "ext":
-                ext[(int(t[1]), int(t[2]))] = None if t[3] == "raw" else (int(t[4]), int(t[5]))
+                ext[(int(t[1]), int(t[2]))] = None if t[3] in ("raw", "rawv") else (int(t[4]), int(t[5]))
             elif op == "caps":
                 want = sorted(set().union(*[m[2] for m in mods.values()])) if mods else []
                 if o != "[" + ",".join(map(str, want)) + "]" and not open1:
@@ -1253,6 +1347,8 @@ class C16(Prop):
             elif op in ("cout", "cin"):
                 if t[1] == "raw":
                     want = f"ok {t[3]}/{t[4]}/{t[2]}"
+                elif t[1] == "rawv":
+                    want = f"ok {t[3]}/{t[4]}/{1000 + KINDS.index(t[2])}"
                 else:
                     a, b, k, c, dd = map(int, t[2:7])
                     good = a == c and (b == dd if op == "cout" else b >= dd)
